@@ -74,6 +74,7 @@ def explore_config(case):
     numapi.check_composed(res, B, [e["p"] for e in alpha.reduced(elems, 12 if not is_dp else 8)], [x["p"] for x in alpha.reduced(xs, 12 if not is_dp else 8)],
                           case, "config", firsts=["exp", "inverse", "square", "neg", "log"], seconds=["Ad", "ad"])
     numapi.check_aliasing(res, B, [e["p"] for e in alpha.reduced(elems, 12 if not is_dp else 8)], [x["p"] for x in alpha.reduced(xs, 12 if not is_dp else 8)], case, "config", ("Ad", "ad"))
+    numapi.check_spellings(res, B, [e["p"] for e in alpha.reduced(elems, 6)], [x["p"] for x in alpha.reduced(xs, 8)], case, "config")
     # ---------------- shapes ---------------------------------------------------------------------
     if ok_("Ad"):
         A0 = B.call("Ad", elems[0]["p"])
